@@ -1094,3 +1094,111 @@ Proof.
   - destruct (ws_pump fu c s1 a1) as [s2 e2] eqn:Hp2. inversion H; subst s' evs.
     destruct (Hrec s2 e2 eq_refl) as (Hr & Hq'). split; assumption.
 Qed.
+
+(* ---- arrivals ---- *)
+
+Lemma ws_nozero_prefix c m a b :
+  ~ In WZero (snd (ws_run c m (a ++ b))) ->
+  ~ In WZero (snd (ws_run c m a)) /\ ~ In WZero (snd (ws_run c (fst (ws_run c m a)) b)).
+Proof.
+  rewrite ws_run_app. destruct (ws_run c m a) as [m1 e1]. cbn [fst snd].
+  destruct (ws_run c m1 b) as [m2 e2]. cbn [fst snd]. intros H. split; intros Hin; apply H; apply in_or_app; [left|right]; assumption.
+Qed.
+
+(* C05_ws_arrivals: what the repaired reader delivers is what the automaton delivers for the
+   concatenation of the arrivals *)
+Theorem ws_arrivals_spec c :
+  wsc_fix c = ws_fixed -> ws_drain_buf <= wsc_rxbuf c ->
+  forall arr s s' evs,
+  ws_qinv c s -> Forall wfb arr ->
+  ~ In WZero (snd (ws_run c (ws_mode_of s) (concat arr))) ->
+  ws_arrivals c s arr = (s', evs) ->
+  ws_run c (ws_mode_of s) (concat arr) = (ws_mode_of s', evs) /\ ws_qinv c s'.
+Proof.
+  intros Hfix Hdb. induction arr as [|a tl IH]; intros s s' evs Hq Wf Hz H.
+  - cbn [ws_arrivals concat] in *. inversion H; subst. split; [reflexivity|assumption].
+  - inversion Wf as [|? ? Wa Wtl]; subst. cbn [ws_arrivals concat] in *.
+    destruct (ws_pump (16 + 2 * length a) c s a) as [s1 e1] eqn:Hp.
+    destruct (ws_arrivals c s1 tl) as [s2 e2] eqn:Ha. inversion H; subst s' evs. clear H.
+    destruct (ws_nozero_prefix c _ _ _ Hz) as (Hz1 & Hz2).
+    assert (Hfu : (length a < 16 + 2 * length a)%nat) by lia.
+    destruct (ws_pump_spec c Hfix Hdb _ s a s1 e1 Hq Wa Hfu Hz1 Hp) as (Hr1 & Hq1).
+    rewrite Hr1 in Hz2. cbn [fst] in Hz2.
+    destruct (IH s1 s2 e2 Hq1 Wtl Hz2 Ha) as (Hr2 & Hq2).
+    rewrite ws_run_app, Hr1, Hr2. split; [reflexivity|assumption].
+Qed.
+
+(* C05_ws_chunking *)
+Corollary ws_arrivals_independent c s arr1 arr2 :
+  wsc_fix c = ws_fixed -> ws_drain_buf <= wsc_rxbuf c ->
+  ws_qinv c s -> Forall wfb arr1 -> Forall wfb arr2 -> concat arr1 = concat arr2 ->
+  ~ In WZero (snd (ws_run c (ws_mode_of s) (concat arr1))) ->
+  snd (ws_arrivals c s arr1) = snd (ws_arrivals c s arr2) /\
+  ws_mode_of (fst (ws_arrivals c s arr1)) = ws_mode_of (fst (ws_arrivals c s arr2)).
+Proof.
+  intros Hfix Hdb Hq W1 W2 Hc Hz.
+  destruct (ws_arrivals c s arr1) as [s1 e1] eqn:H1. destruct (ws_arrivals c s arr2) as [s2 e2] eqn:H2.
+  destruct (ws_arrivals_spec c Hfix Hdb arr1 s s1 e1 Hq W1 Hz H1) as (R1 & _).
+  rewrite Hc in Hz. destruct (ws_arrivals_spec c Hfix Hdb arr2 s s2 e2 Hq W2 Hz H2) as (R2 & _).
+  rewrite Hc, R2 in R1. inversion R1 as [[Hm He]]. cbn [fst snd]. split; congruence.
+Qed.
+
+(* the automaton reports neither an out-of-bounds write, nor a stuck reader, nor exhausted fuel *)
+Definition ws_ev_clean (e : ws_ev) : Prop :=
+  match e with WOob | WStuck | WFuel => False | _ => True end.
+
+Lemma ws_step_clean c m b : Forall ws_ev_clean (snd (ws_step c m b)).
+Proof.
+  destruct m as [f line|h|mask size acc|]; cbn [ws_step].
+  - destruct ((b =? 10) && negb (ws_has_nul line)).
+    + destruct (ws_process_line c f (ws_strip_cr line)); repeat constructor.
+    + destruct (ws_http_buf - 1 <=? len (line ++ [b])); repeat constructor.
+  - destruct (len (h ++ [b]) <? 2); [constructor|].
+    destruct (wsc_server c && negb (fh_masked (ws_fh (nth 1 (h ++ [b]) 0)))); [repeat constructor|].
+    destruct (len (h ++ [b]) <? fh_hl (ws_fh (nth 1 (h ++ [b]) 0))); [constructor|].
+    unfold ws_hdr_done. repeat case_if; repeat constructor.
+  - destruct (len (acc ++ [b]) =? size); repeat constructor.
+  - constructor.
+Qed.
+
+Lemma ws_run_clean c : forall x m, Forall ws_ev_clean (snd (ws_run c m x)).
+Proof.
+  induction x as [|b x IH]; intros m; cbn [ws_run]; [constructor|].
+  pose proof (ws_step_clean c m b) as Hs. destruct (ws_step c m b) as [m1 e1]. specialize (IH m1).
+  destruct (ws_run c m1 x) as [m2 e2]. cbn [snd] in *. apply Forall_app. split; assumption.
+Qed.
+
+(* C05_ws_no_oob *)
+Corollary ws_arrivals_clean c s arr :
+  wsc_fix c = ws_fixed -> ws_drain_buf <= wsc_rxbuf c ->
+  ws_qinv c s -> Forall wfb arr ->
+  ~ In WZero (snd (ws_run c (ws_mode_of s) (concat arr))) ->
+  Forall ws_ev_clean (snd (ws_arrivals c s arr)).
+Proof.
+  intros Hfix Hdb Hq W Hz. destruct (ws_arrivals c s arr) as [s1 e1] eqn:H1.
+  destruct (ws_arrivals_spec c Hfix Hdb arr s s1 e1 Hq W Hz H1) as (R1 & _).
+  pose proof (ws_run_clean c (concat arr) (ws_mode_of s)) as Hc. rewrite R1 in Hc. exact Hc.
+Qed.
+
+Lemma ws_init_qinv c : ws_qinv c ws_init.
+Proof.
+  right; left. cbn [ws_init w_closed w_up w_http]. repeat split; try constructor.
+Qed.
+
+(* C05_ws_longline: a handshake line that fills the buffer closes the session *)
+Theorem ws_longline_closes c arr x more s' evs :
+  wsc_fix c = ws_fixed -> ws_drain_buf <= wsc_rxbuf c -> Forall wfb arr ->
+  concat arr = x ++ more -> ws_find_nl x = None -> len x = ws_http_buf - 1 ->
+  ws_arrivals c ws_init arr = (s', evs) ->
+  evs = [WFail] /\ w_closed s' = true.
+Proof.
+  intros Hfix Hdb W Hc Hn Hl H.
+  assert (Hrun : ws_run c (ws_mode_of ws_init) (concat arr) = (MClosed, [WFail])).
+  { rewrite Hc. unfold ws_mode_of, ws_init. cbn [w_closed w_up w_flags w_http negb].
+    apply ws_run_hs_full; assumption. }
+  assert (Hz : ~ In WZero (snd (ws_run c (ws_mode_of ws_init) (concat arr)))).
+  { rewrite Hrun. cbn [snd In]. intros [E|[]]. discriminate. }
+  destruct (ws_arrivals_spec c Hfix Hdb arr ws_init s' evs (ws_init_qinv c) W Hz H) as (R & _).
+  rewrite Hrun in R. inversion R; subst. split; [reflexivity|].
+  apply ws_mode_of_closed. congruence.
+Qed.
